@@ -50,52 +50,75 @@ theorem objName_ne (n : Bytes) : kObj ++ n ≠ kFinal ∧ kObj ++ n ≠ [] ∧ k
   have : usc ∈ kObj ++ n := by simp [kObj]
   refine ⟨?_, ?_, ?_, ?_⟩ <;> intro e <;> rw [e] at this <;> revert this <;> decide
 
-theorem AltOK_playersFlat (ps : List (List (Bytes × Bytes))) (i : Nat) (rest : List Bytes) (hr : AltOK rest) :
-    AltOK (playersFlat i ps ++ rest) := by
-  induction ps generalizing i with
-  | nil => exact hr
-  | cons p t ih =>
-    simp only [playersFlat, playerFlat, List.append_assoc]
-    exact AltOK_flatMap2 p (fun kv => playerKey kv.1 i) _
-      (fun kv _ => ⟨(playerKey_ne kv.1 i).1, (playerKey_ne kv.1 i).2.1⟩) (ih (i + 1))
+/-- well-formed pair on the wire (what `WfStatus` says of every pair of the status) -/
+def WfItem : Item → Prop
+  | .field k v => (bsl ∉ k ∧ bsl ∉ v) ∧ (k ≠ [] ∧ usc ∉ k ∧ k ≠ kQueryid ∧ k ≠ kFinal ∧ k ≠ kStatusresponse) ∧
+      (v ≠ kQueryid ∧ v ≠ kStatusresponse)
+  | .player id k v => (bsl ∉ k ∧ bsl ∉ v) ∧ (usc ∉ k ∧ k ≠ kObjBare) ∧ id < 9223372036854775808 ∧
+      (v ≠ kQueryid ∧ v ≠ kStatusresponse)
+  | .objective n v => (bsl ∉ n ∧ bsl ∉ v) ∧ n ≠ [] ∧ (v ≠ kQueryid ∧ v ≠ kStatusresponse)
 
-theorem AltOK_flat (s : Status) (wf : WfStatus s) : AltOK (flat s) := by
-  unfold flat
-  rw [List.append_assoc]
-  refine AltOK_flatMap2 s.fields (fun kv => kv.1) _ (fun kv hkv => ⟨(wf.field_names kv hkv).2.2.2.1, (wf.field_names kv hkv).1⟩) ?_
-  refine AltOK_playersFlat s.players 0 _ ?_
-  have := AltOK_flatMap2 s.objectives (fun kv => kObj ++ kv.1) []
-    (fun kv _ => ⟨(objName_ne kv.1).1, (objName_ne kv.1).2.1⟩) trivial
-  simpa using this
+theorem WfItem.expOK {it : Item} (h : WfItem it) : ExpOK it := by
+  cases it with
+  | field k v => exact h.2.1.2.1
+  | player id k v => exact ⟨h.2.1.1, h.2.1.2, h.2.2.1⟩
+  | objective n v => exact h.2.1
 
-theorem flat_elem_ok (s : Status) (wf : WfStatus s) : ∀ g ∈ flat s, g ≠ kQueryid ∧ g ≠ kStatusresponse := by
-  intro g hg
-  rcases mem_flat hg with ⟨kv, hkv, h⟩ | ⟨p, hp, kv, hkv, h⟩ | ⟨kv, hkv, h⟩
-  · rcases h with rfl | rfl
-    · exact ⟨(wf.field_names kv hkv).2.2.1, (wf.field_names kv hkv).2.2.2.2⟩
-    · exact wf.values _ (by simp only [List.mem_append, List.mem_map]; exact .inl (.inl ⟨kv, hkv, rfl⟩))
-  · rcases h with ⟨j, rfl⟩ | rfl
-    · exact ⟨(playerKey_ne kv.1 j).2.2.1, (playerKey_ne kv.1 j).2.2.2⟩
-    · exact wf.values _ (by
-        simp only [List.mem_append, List.mem_map, List.mem_flatMap]
-        exact .inl (.inr ⟨p, hp, kv, hkv, rfl⟩))
-  · rcases h with rfl | rfl
-    · exact ⟨(objName_ne kv.1).2.2.1, (objName_ne kv.1).2.2.2⟩
-    · exact wf.values _ (by simp only [List.mem_append, List.mem_map]; exact .inr ⟨kv, hkv, rfl⟩)
+/-- what the framing layer (fragmentation, inspection, reassembly) needs of a field sequence -/
+structure FlatOK (fl : List Bytes) : Prop where
+  alt : AltOK fl
+  nobsl : ∀ g ∈ fl, bsl ∉ g
+  elem : ∀ g ∈ fl, g ≠ kQueryid ∧ g ≠ kStatusresponse
 
-/-- every contiguous part of the field sequence of a well-formed status is a good chunk -/
-theorem ChunkOK_of_infix (s : Status) (wf : WfStatus s) (ch : List Bytes) (h : ch <:+: flat s) : ChunkOK ch := by
+theorem WfItem.name_ok {it : Item} (h : WfItem it) :
+    bsl ∉ it.name ∧ it.name ≠ kFinal ∧ it.name ≠ [] ∧ it.name ≠ kQueryid ∧ it.name ≠ kStatusresponse := by
+  cases it with
+  | field k v => exact ⟨h.1.1, h.2.1.2.2.2.1, h.2.1.1, h.2.1.2.2.1, h.2.1.2.2.2.2⟩
+  | player id k v => exact ⟨playerKey_noBsl id h.1.1, playerKey_ne k id⟩
+  | objective n v =>
+    refine ⟨?_, objName_ne n⟩
+    simp only [Item.name, List.mem_append, not_or]; exact ⟨by decide, h.1.1⟩
+
+theorem WfItem.value_ok {it : Item} (h : WfItem it) :
+    bsl ∉ it.value ∧ it.value ≠ kQueryid ∧ it.value ≠ kStatusresponse := by
+  cases it with
+  | field k v => exact ⟨h.1.2, h.2.2⟩
+  | player id k v => exact ⟨h.1.2, h.2.2.2⟩
+  | objective n v => exact ⟨h.1.2, h.2.2⟩
+
+/-- the field sequence of well-formed pairs, in any order, is fit for every dialect's framing -/
+theorem FlatOK_flatItems (w : List Item) (h : ∀ it ∈ w, WfItem it) : FlatOK (flatItems w) := by
+  refine ⟨?_, ?_, ?_⟩
+  · induction w with
+    | nil => trivial
+    | cons it t ih =>
+      have hn := (h it (by simp)).name_ok
+      simp only [flatItems, List.flatMap_cons, List.cons_append, List.nil_append, AltOK]
+      exact ⟨hn.2.1, hn.2.2.1, ih (fun it' h' => h it' (List.mem_cons_of_mem _ h'))⟩
+  · intro g hg
+    simp only [flatItems, List.mem_flatMap, List.mem_cons, List.not_mem_nil, or_false] at hg
+    obtain ⟨it, hit, rfl | rfl⟩ := hg
+    · exact (h it hit).name_ok.1
+    · exact (h it hit).value_ok.1
+  · intro g hg
+    simp only [flatItems, List.mem_flatMap, List.mem_cons, List.not_mem_nil, or_false] at hg
+    obtain ⟨it, hit, rfl | rfl⟩ := hg
+    · exact ⟨(h it hit).name_ok.2.2.2.1, (h it hit).name_ok.2.2.2.2⟩
+    · exact (h it hit).value_ok.2
+
+/-- every contiguous part of a good field sequence is a good chunk -/
+theorem ChunkOK_of_infix (fl : List Bytes) (ok : FlatOK fl) (ch : List Bytes) (h : ch <:+: fl) : ChunkOK ch := by
   obtain ⟨A, B, hAB⟩ := h
-  have hmem : ∀ g ∈ ch, g ∈ flat s := by
+  have hmem : ∀ g ∈ ch, g ∈ fl := by
     intro g hg; rw [← hAB]; simp [hg]
-  refine ⟨fun g hg => flat_noBsl s wf g (hmem g hg), fun g hg => (flat_elem_ok s wf g (hmem g hg)).1,
-    fun g hg => (flat_elem_ok s wf g (hmem g hg)).2, ?_⟩
+  refine ⟨fun g hg => ok.nobsl g (hmem g hg), fun g hg => (ok.elem g (hmem g hg)).1,
+    fun g hg => (ok.elem g (hmem g hg)).2, ?_⟩
   cases hs : hasSuffix (body ch) FINAL with
   | false => rfl
   | true =>
     exfalso
-    obtain ⟨pre, hpre⟩ := body_suffix_final ch (fun g hg => flat_noBsl s wf g (hmem g hg)) hs
-    refine AltOK_nfe (flat s) (AltOK_flat s wf) (A ++ pre) B ?_
+    obtain ⟨pre, hpre⟩ := body_suffix_final ch (fun g hg => ok.nobsl g (hmem g hg)) hs
+    refine AltOK_nfe fl ok.alt (A ++ pre) B ?_
     rw [← hAB, hpre]; simp
 
 theorem chunksFrom_flatten (fl : List Bytes) (prev : Nat) (cuts : List Nat) :
@@ -110,9 +133,9 @@ theorem chunks_flatten (fl : List Bytes) (cuts : List Nat) : (chunks fl cuts).fl
 theorem chunksFrom_ne_nil (fl : List Bytes) (prev : Nat) (cuts : List Nat) : chunksFrom fl prev cuts ≠ [] := by
   cases cuts <;> simp [chunksFrom]
 
-theorem ChunkOK_of_mem_chunks (s : Status) (wf : WfStatus s) (cuts : List Nat) (ch : List Bytes)
-    (h : ch ∈ chunks (flat s) cuts) : ChunkOK ch := by
-  apply ChunkOK_of_infix s wf
+theorem ChunkOK_of_mem_chunks (fl : List Bytes) (ok : FlatOK fl) (cuts : List Nat) (ch : List Bytes)
+    (h : ch ∈ chunks fl cuts) : ChunkOK ch := by
+  apply ChunkOK_of_infix fl ok
   have := List.infix_of_mem_flatten h
   rwa [chunks_flatten] at this
 
